@@ -24,7 +24,8 @@ RULE = ("documents valid for every exported class (structure from the instance g
         "integer part; strings with each special character escaped (six entities) or raw where legal; EVERY enumeration token (round-robin per "
         "run); date-times in all four notations + offset-without-ms x offsets (fractional, negative, unsigned) x names; times. Rendered as XML, "
         "SGML and mixtures with a v1 or v2 header. A case = (class, seed); non-trivial = document with >= 1 data element")
-ASSUMPTIONS = ["ref_types.py (self-tested)", "document structure validity from the instance generator; rendering by gen/render.py cross-checked by ref_sgml in C02",
+ASSUMPTIONS = ["ref_types.py (self-tested)", "the type, limit, scale and enumeration tokens of every element are taken from vf/oracles/spec_table.json, a copy of the element "
+               "declarations frozen from the reviewed tree (tools/mkspec.py) that stands in for the OFX specification; children the table does not know are typed by the live declaration and counted", "document structure validity from the instance generator; rendering by gen/render.py cross-checked by ref_sgml in C02",
                "decimal texts carry no more fractional digits than the declared scale (rounding mode is not specified by the property)"]
 LEVEL_TEXT = ("Exploration over all classes: each run converts hundreds of harness-written documents per class family with lexical forms the "
               "library's own serializer never produces, so a compensating error between convert and unconvert cannot hide; every enumeration "
